@@ -34,6 +34,7 @@ type Plan struct {
 	DialErr      bool // active: the dialer returns an error at once (refused)
 	DialHang     bool // active: the dialer blocks until its ctx is cancelled, then returns ctx.Err()
 	DialHangLive bool // active: as DialHang, but then returns a LIVE conn anyway (a dialer that ignores cancellation)
+	DialBlackhole bool // active: the connect attempt neither completes nor is refused: it blocks until its ctx is cancelled (simulated OS connect timeout: 30 s)
 	ListenErr    bool // passive: the listener factory returns an error
 	CutOut       int  // close the peer end after READING this many bytes from the library (-1: never)
 	CutIn        int  // close the peer end after WRITING this many bytes to the library (-1: never)
@@ -55,6 +56,9 @@ const CloseWatchdog = 15 * time.Second
 // Refused is a dial that fails at once; Hang one that fails after the connect timeout.
 func Refused() Plan { p := Normal(); p.DialErr = true; return p }
 func Hang() Plan    { p := Normal(); p.DialHang = true; return p }
+
+// BlackholeTimeout is the simulated OS connect timeout of a black-holed dial.
+const BlackholeTimeout = 30 * time.Second
 
 // HangCap is the simulated OS connect timeout of a dial that hangs.
 const HangCap = 150 * time.Millisecond
@@ -319,6 +323,16 @@ func (r *Rig) dial(ctx context.Context, _, _ string) (net.Conn, error) {
 			return nil, ctx.Err()
 		case <-time.After(HangCap):
 			return nil, errors.New("rig: connect timed out")
+		}
+	case p.DialBlackhole:
+		r.add(Ev{K: "D", ID: int64(n), Res: "blackhole", N: [4]int64{cancelled}})
+		select {
+		case <-ctx.Done():
+			r.add(Ev{K: "B", ID: int64(n), Res: "cancelled"})
+			return nil, ctx.Err()
+		case <-time.After(BlackholeTimeout):
+			r.add(Ev{K: "B", ID: int64(n), Res: "os-timeout"})
+			return nil, errors.New("rig: connect timed out (OS)")
 		}
 	case p.DialHangLive:
 		r.add(Ev{K: "D", ID: int64(n), Res: "hanglive", N: [4]int64{cancelled}})
